@@ -225,8 +225,13 @@ def build_prop(spec, parent=None):
               "value_origin", "val_cardinality"):
         if spec.get(a) is not None:
             kw[a] = spec[a]
+    dtype = spec["dtype"]
+    # every third scalar dtype (by name hash, so that a spec always builds the same way) is handed over as the DType member,
+    # the other documented way of naming a type
+    if isinstance(dtype, str) and hasattr(odml.DType, dtype) and sum(map(ord, spec["name"] or "")) % 3 == 0:
+        dtype = getattr(odml.DType, dtype)
     return odml.Property(name=spec["name"], values=list(spec["values"]) if spec["values"] else None,
-                         dtype=spec["dtype"], oid=spec.get("id"), parent=parent, **kw)
+                         dtype=dtype, oid=spec.get("id"), parent=parent, **kw)
 
 
 def build_sec(spec, parent=None):
